@@ -8,6 +8,6 @@ mkdir -p .work/bin evidence replays
 cat /repo/go.sum /repo/client/go.sum | sort -u > harness/go.sum
 (cd harness && go build -tags verif -o ../.work/bin/harness .)
 mkdir -p lean/Asts/Gen
-for w in Sites Crd Defaulters; do ./.work/bin/harness extract $w > lean/Asts/Gen/$w.lean; done
+for w in Sites Crd Defaulters Schema; do ./.work/bin/harness extract $w > lean/Asts/Gen/$w.lean; done
 (cd lean && lake build)
 echo setup-ok
